@@ -563,7 +563,7 @@ func layout(in []Tok, eof Tok, r *rand.Rand, lay Layout) *Rendered {
 		if lay.Payload != nil {
 			return lay.Payload(r, serial)
 		}
-		words := []string{" note", "x", " TODO: fix", "", " a b c", "---", " let y = 2;", "/", " résumé des totaux", " 日本語 ✓", "é", " → 😀 x", " nul\x00byte", "\x00", " tab\there \v\f"}
+		words := []string{" note", "x", " TODO: fix", "", " a b c", "---", " let y = 2;", "/", " résumé des totaux", " 日本語 ✓", "é", " → 😀 x", " nul\x00byte", "\x00", " tab\there \v\f", " — “x” … • y"}
 		return words[r.IntN(len(words))]
 	}
 
